@@ -105,11 +105,11 @@ def stepLine (d : DState) (w : List String) : DState × String :=
       match d.get' id with
       | some (.f64 ker s) =>
         match parseCoords64 cs with
-        | some q => if estimateThrows s then (d, "throw") else (d, "E " ++ hexOrNan64 (estimate (kernelF64 ker) s q))
+        | some q => if estimateThrows s then (d, "throw") else if estimateUB s then (d, "ub") else (d, "E " ++ hexOrNan64 (estimate (kernelF64 ker) s q))
         | none => (d, "bad-op")
       | some (.f32 ker s) =>
         match parseCoords32 cs with
-        | some q => if estimateThrows s then (d, "throw") else (d, "E " ++ hexOrNan32 (estimate (kernelF32 ker) s q))
+        | some q => if estimateThrows s then (d, "throw") else if estimateUB s then (d, "ub") else (d, "E " ++ hexOrNan32 (estimate (kernelF32 ker) s q))
         | none => (d, "bad-op")
       | none => (d, "throw")
     | none => (d, "bad-op")
